@@ -677,9 +677,20 @@ def check_recover(ctx, rule):
             if not seg_rej:
                 continue
             n += 1
+            last = seg_rej[-1]
+            # ... and by exactly its own length: the slice must start where the rejected prefix ended
+            calls_ = [e for e in evs if e.idx < last.idx and e.kind == "call" and is_call(e.data["term"], method="from_string") and e.data["args"]]
+            own = [e for e in evs if e.idx > last.idx and e.kind == "store" and e.data.get("attr") == "data" and show(e.data["base"]) == "self" and e.fn is f]
+            if calls_ and own:
+                a = calls_[-1].data["args"][0]
+                pend = a.args[1].args[1] if isinstance(a, Term) and a.op == "sub" and isinstance(a.args[1], Term) and a.args[1].op == "slice" and a.args[1].args[0] is None else None
+                v = own[0].data["value"]
+                start = v.args[1].args[0] if isinstance(v, Term) and v.op == "sub" and isinstance(v.args[1], Term) and v.args[1].op == "slice" and v.args[1].args[1] is None else None
+                if pend is None or start is None or show(pend) != show(start) or len(own) != 1:
+                    ctx.violated(rule, f.short, f"the rejected complete element data[:{show(pend)[:40] if pend is not None else '?'}] is removed by truncating to {show(v)[:50]}: not exactly the rejected element (characters of the following message are lost, or part of the element stays)", fi=f, text="rejected-not-exact")
+                    bad = True
             if how not in ("break", "return"):
                 continue
-            last = seg_rej[-1]
             consumed = False
             for e in evs:
                 if e.idx > last.idx and e.kind == "store" and e.data.get("attr") == "data" and show(e.data["base"]) == "self":
